@@ -34,7 +34,7 @@ man = {
     "checks": [],
     "not_applicable": [],
     "notes": "Every claim is a bounded claim about decision/arithmetic kernels of the property (DESIGN.md section 4 states, per "
-             "property, what the kernels carry and what stays outside). Exit 2 = inconclusive (never reported as a violation).",
+             "property, what the kernels carry and what stays outside). Exit 2 = nothing decided or a result inconclusive (never reported as a violation); harnesses that ran out of time/memory are retried once, then printed as NOT-DECIDED and listed under not_decided in the evidence (not counted as explored).",
 }
 for pid in sorted(claims):
     c = claims[pid]
